@@ -196,8 +196,13 @@ def trace_cfg(nodes, invariants, module_spec="TraceSpec", extra_consts=None):
     }
     if extra_consts:
         c.update(extra_consts)
-    return vp.cfg_text(module_spec, c, ["OnlyRealNodes"] + list(invariants) + ["DriftReport"], (), None,
-                       ["POSTCONDITION Consumed"])
+    inv = list(invariants)
+    if "ForeignNodesAllowed" in inv:
+        # hostile input (C13) may name nodes that do not exist; that is not what is judged there
+        inv.remove("ForeignNodesAllowed")
+    else:
+        inv = ["OnlyRealNodes"] + inv
+    return vp.cfg_text(module_spec, c, inv + ["DriftReport"], (), None, ["POSTCONDITION Consumed"])
 
 
 class TraceVerdict:
